@@ -1,5 +1,6 @@
 import argparse
 import concurrent.futures as cf
+import concurrent.futures.process
 import json
 import os
 import sys
@@ -59,8 +60,13 @@ def run_engines(run, engines, cfgs, prop):
     if len(jobs) == 1:
         results = [_worker(jobs[0])]
     else:
-        with cf.ProcessPoolExecutor(max_workers=min(len(jobs), 12)) as ex:
-            results = list(ex.map(_worker, jobs))
+        try:
+            with cf.ProcessPoolExecutor(max_workers=min(len(jobs), 12)) as ex:
+                results = list(ex.map(_worker, jobs))
+        except cf.process.BrokenProcessPool:
+            # a worker was killed (memory pressure on a loaded machine): the analysis is deterministic, redo it serially
+            sys.stderr.write("[%s] worker pool broke; re-running %d jobs serially\n" % (prop, len(jobs)))
+            results = [_worker(j) for j in jobs]
     for (e, c, _th, _p), (config, sub) in zip(jobs, results):
         for f in sub.findings:
             run.add(f)
@@ -115,7 +121,19 @@ def eng_muxshape(f, sub, prop):
     muxshape.run_lookups(f, sub, prop)
 
 
-ENGINES = {"muxshape": eng_muxshape, "maskdom": eng_maskdom, "gates": eng_gates, "tables": eng_tables, "uxcomp": eng_uxcomp, "ctflow": eng_ctflow, "totality": eng_totality}
+def eng_limbcov(f, sub, prop):
+    from . import limbcov
+    flt = limbcov.scope_filter(f, prop)
+    nfull = limbcov.run_limbcov(f, sub, prop, flt)
+    nret = limbcov.run_limbdeps(f, sub, prop, flt)
+    floor = 120 if flt is None else 20
+    if nfull < floor:
+        sub.oblige(ok=False)
+        sub.add(Finding("K5", "anchor", "limbcov K5: only %d fully covered limb arrays found in scope (floor %d): the rule would pass vacuously" % (nfull, floor),
+                        config=f.config, prop=prop))
+
+
+ENGINES = {"limbcov": eng_limbcov, "muxshape": eng_muxshape, "maskdom": eng_maskdom, "gates": eng_gates, "tables": eng_tables, "uxcomp": eng_uxcomp, "ctflow": eng_ctflow, "totality": eng_totality}
 
 
 # ---- properties --------------------------------------------------------------
@@ -295,7 +313,7 @@ def check_C18(tier):
     if "x64" not in cfgs:
         cfgs = ["x64"] + cfgs
     # P3: the backend-sensitive structural rules, re-decided in every configuration, reported against C18
-    stats = run_engines(run, ["p4", "maskdom", "muxshape", "gates"], cfgs, "C18")
+    stats = run_engines(run, ["p4", "maskdom", "muxshape", "gates", "limbcov"], cfgs, "C18")
     th = factsmod.tree_hash()
     af = {c: factsmod.load(c, th) for c in cfgs}
     n, nref = apiparity.run_p1(af, run, "C18")
@@ -316,8 +334,8 @@ def check_C18(tier):
         extra_cov=dict(configs=cfgs, reference_api_items=nref, sibling_pairs_compared=n5, per_config=stats))
 
 
-CHECKS = {"C17": check_gates("C17", ["hashreset"]), "C18": check_C18, "C20": check_gates("C20", ["maskdom", "muxshape"]), "C05": check_gates("C05", ["gates"]), "C06": check_gates("C06", ["gates"]), "C07": check_gates("C07", ["gates"]),
-          "C08": check_gates("C08", ["gates"]), "C09": check_gates("C09", ["gates"]),
+CHECKS = {"C17": check_gates("C17", ["hashreset"]), "C18": check_C18, "C20": check_gates("C20", ["maskdom", "muxshape", "limbcov"]), "C05": check_gates("C05", ["gates", "limbcov"]), "C06": check_gates("C06", ["gates", "limbcov"]), "C07": check_gates("C07", ["gates", "limbcov"]),
+          "C08": check_gates("C08", ["gates", "limbcov"]), "C09": check_gates("C09", ["gates", "limbcov"]),
           "C15": check_gates("C15", ["gates", "totality"]), "C16": check_gates("C16", ["gates"]),
           "C02": check_C02, "C04": check_C04, "C13": check_gates("C13", ["uxcomp", "gates"], level="exploration"),
           "C19": check_totality("C19"), "C10": check_totality("C10"), "C11": check_totality("C11")}
